@@ -667,6 +667,19 @@ impl<'a, 'ast> Visit<'ast> for Ctx<'a> {
                     }
                 }
             }
+            syn::Expr::Call(c) => {
+                // E12 (free functions): `once(x)` / `iter::repeat_n(x, n)` -> `vx_once(x)` / `vx_repeat_n(x, n)` when listed as `fn:<name>`
+                if let syn::Expr::Path(p) = &*c.func {
+                    let name = last_seg(&p.path);
+                    if self.item.wrap.contains(&format!("fn:{name}")) {
+                        let (a, b) = self.src.range(p.span());
+                        self.add(a, b, format!("vx_{name}"), "E12 adapter wrapper (free function)");
+                        self.site("wrapped_call");
+                        for a in &c.args { self.visit_expr(a); }
+                        return;
+                    }
+                }
+            }
             syn::Expr::Index(_) => self.site("index"),
             syn::Expr::Unsafe(_) => self.site("unsafe_block"),
             syn::Expr::Binary(b) => {
